@@ -116,6 +116,21 @@ def helper_range_checks(ctx, rule):
     ctx.ob(rule, fi, ok, "bytes2integer is int.from_bytes(data, 'big', signed=signed)", key="bytes2integer conversion")
 
 
+def unit_table_check(ctx, rule):
+    """possiblestringencodings gives every supported encoding its code-unit width (the width of the terminator CString looks for)."""
+    M = ctx.model
+    tab = M.module_assigns[M.CORE].get("possiblestringencodings")
+    if tab is None:
+        raise AnalysisError("anchor vanished: possiblestringencodings")
+    got = None
+    if isinstance(tab, ast.Call) and isinstance(tab.func, ast.Name) and tab.func.id == "dict":
+        got = {k.arg: ast.literal_eval(k.value) for k in tab.keywords}
+    elif isinstance(tab, ast.Dict):
+        got = ast.literal_eval(tab)
+    ctx.ob(rule, "possiblestringencodings", got is not None and all(k in CODEC_UNITS and CODEC_UNITS[k] == v for k, v in got.items()) and len(got) >= 10,
+           "every supported encoding has its Unicode code-unit width (found %s)" % got, key="unit table", loc="%s:%d" % (M.CORE, tab.lineno))
+
+
 def run(ctx):
     M = ctx.model
     core = M.modules[M.CORE]
@@ -197,14 +212,7 @@ def run(ctx):
     ctx.ob("C03.R1", fi, len(allowed) >= 2, "FormatField rejects unknown byte-order characters and format codes at construction", key="fmt validation")
 
     # ---------------------------------------------------------------- R2
-    tab = M.module_assigns[M.CORE].get("possiblestringencodings")
-    got = None
-    if isinstance(tab, ast.Call) and isinstance(tab.func, ast.Name) and tab.func.id == "dict":
-        got = {k.arg: ast.literal_eval(k.value) for k in tab.keywords}
-    elif isinstance(tab, ast.Dict):
-        got = ast.literal_eval(tab)
-    ctx.ob("C03.R2", "possiblestringencodings", got is not None and all(k in CODEC_UNITS and CODEC_UNITS[k] == v for k, v in got.items()) and len(got) >= 10,
-           "every supported encoding has its Unicode code-unit width (found %s)" % got, key="unit table", loc=loc_of("possiblestringencodings"))
+    unit_table_check(ctx, "C03.R2")
     fi = M.function("encodingunit")
     paths = paths_of(ctx, fi)
     rets = [p for p in paths if p.returns]
